@@ -48,7 +48,8 @@ TEXT = dict(
           "length and bytes), every placement and file_len unchanged, and every punch range is disjoint from every live "
           "region's contents and lies in a hole or in [ceil_page(len), reserved). Props/C12crash.v: in a trace accepted by the "
           "(proved sound) crash monitor every punch range avoids the contents of EVERY possibly-durable version of EVERY slot, "
-          "hence C05 holds across compaction. Props/C12race.v (step model at lock-acquisition granularity, real schedules replayed by engine schedraw): a punch changes no byte below ceil_page of the length published at punch time; the end-to-end statement for an append racing with compact is REFUTED by a concrete schedule reproduced on the real code (known finding punch-zeroes-bytes-copied-but-not-yet-published)."),
+          "hence C05 holds across compaction; C12_all_histories_partial lifts this to every history of the allocator model (the "
+          "structural premise that punches occur only while no region-addressed operation is open is checked per trace, not yet proved). Props/C12race.v (step model at lock-acquisition granularity, real schedules replayed by engine schedraw): a punch changes no byte below ceil_page of the length published at punch time; the end-to-end statement for an append racing with compact is REFUTED by a concrete schedule reproduced on the real code (known finding punch-zeroes-bytes-copied-but-not-yet-published)."),
     note=("Trusted as for C01 and C05. The punch itself (fallocate PUNCH_HOLE|KEEP_SIZE) is modelled as zeroing the range; "
           "approx_has_punchable_data's sampling is modelled as 'always punches' (a superset of the real effect)."),
 )
